@@ -274,7 +274,7 @@ class ExprMixin:
     def ev_list_guarded(self, nodes, p, is_and):
         """Evaluate pure operands of and/or; if a later operand could raise (e.g. None deref guarded by an
         earlier operand) fall back to forking evaluation."""
-        res = self.ev_list(nodes, p.copy())
+        res = self.ev_list(nodes, p if self.spec_mode else p.copy())
         if len(res) != 1 or isinstance(res[0][1], Exc):
             raise _NeedFork()
         return res
@@ -368,6 +368,12 @@ class ExprMixin:
         raise Unsupported(f"binop {type(op).__name__} on {a!r}, {b!r} at {w}")
 
     def binop_extra(self, op, a, b, p, node):
+        from .types import VReal, REAL
+        if isinstance(a, VReal) or isinstance(b, VReal):
+            x, y = coerce(a, REAL).z, coerce(b, REAL).z
+            r = {ast.Add: lambda: x + y, ast.Sub: lambda: x - y, ast.Mult: lambda: x * y, ast.Div: lambda: x / y}.get(type(op))
+            if r is not None:
+                return [(p, VReal(r()))]
         return None
 
     def str_concat(self, a, b):
@@ -487,6 +493,10 @@ class ExprMixin:
             b = coerce(b, INT)
         if isinstance(a, VInt) and isinstance(b, VInt):
             return {ast.Lt: a.z < b.z, ast.LtE: a.z <= b.z, ast.Gt: a.z > b.z, ast.GtE: a.z >= b.z}[type(op)]
+        from .types import VReal, REAL
+        if isinstance(a, VReal) or isinstance(b, VReal):
+            x, y = coerce(a, REAL).z, coerce(b, REAL).z
+            return {ast.Lt: x < y, ast.LtE: x <= y, ast.Gt: x > y, ast.GtE: x >= y}[type(op)]
         if isinstance(a, VBV) and isinstance(b, VBV):
             return {ast.Lt: z3.ULT(a.z, b.z), ast.LtE: z3.ULE(a.z, b.z), ast.Gt: z3.UGT(a.z, b.z), ast.GtE: z3.UGE(a.z, b.z)}[type(op)]
         raise Unsupported(f"compare {type(op).__name__} on {a!r}, {b!r}")
@@ -546,7 +556,7 @@ class ExprMixin:
                 def fin(q2, vs):
                     return [(q2, ite(t, vs[0], vs[1]))]
                 try:
-                    r = self.ev_list([node.body, node.orelse], q.copy())
+                    r = self.ev_list([node.body, node.orelse], q if self.spec_mode else q.copy())
                     if len(r) == 1 and not isinstance(r[0][1], Exc):
                         return self.bind(r, fin)
                 except TypeError:
